@@ -409,6 +409,8 @@ pub struct Out<'w> {
     pub last_rv: String,
     pub last_sv: String,
     pub events: u64,
+    /// write-log length at the first successful flush/close (C14 crash enumeration starts there)
+    pub first_flush: Option<u64>,
 }
 
 impl Out<'_> {
@@ -889,7 +891,7 @@ fn devlog_json(dev: &SimDevice, geo: &Option<Geo>) -> (Value, u64, u64, Value) {
 pub fn run_program(prog: &Value, w: &mut dyn std::io::Write) -> u64 {
     let cfg = Cfg::from_json(prog.get("cfg").unwrap_or(&json!({})));
     let prog_id = prog.get("id").map(|v| v.as_str().map(str::to_string).unwrap_or(v.to_string())).unwrap_or_default();
-    let mut out = Out { w, prog_id, idx: 0, last_raw: String::new(), last_rv: String::new(), last_sv: String::new(), events: 0 };
+    let mut out = Out { w, prog_id, idx: 0, last_raw: String::new(), last_rv: String::new(), last_sv: String::new(), events: 0, first_flush: None };
     let ops: Vec<Value> = prog.get("ops").and_then(Value::as_array).cloned().unwrap_or_default();
     let fault = prog.get("fault").cloned();
     let vol = cfg.j.get("vol").cloned().unwrap_or(json!({}));
@@ -1032,8 +1034,12 @@ pub fn run_program(prog: &Value, w: &mut dyn std::io::Write) -> u64 {
                 if name == "clock" {
                     ev.insert("clk".into(), json!(clock.0.get()));
                 }
+
                 let hung = dev.0.borrow().budget_tripped;
                 finish_event(&mut ev, &dev, &geo, &cfg, &dopts, &mut out, if panicked || hung { None } else { Some(&fs) }, &clock);
+                if cfg.wlog && out.first_flush.is_none() && (name == "flush" || name == "close") && ev["r"]["k"] == "ok" {
+                    out.first_flush = ev.get("fm").and_then(Value::as_u64);
+                }
                 out.emit(ev);
                 // after an injected device fault the state is not trusted any more: stop here
                 let faulted = dev.0.borrow().fault_hit.is_some();
@@ -1167,6 +1173,9 @@ fn finish_event(
         }
         if cfg.wlog {
             ev.insert("wl".into(), json!(d.wlog.len()));
+            // position just after the last flush the storage has seen: everything before it is durable
+            let fm = d.wlog.iter().rposition(|r| matches!(r, crate::dev::WlogRec::Flush)).map_or(0, |p| p + 1);
+            ev.insert("fm".into(), json!(fm));
         }
     }
     dev.0.borrow_mut().observe = true;
